@@ -20,14 +20,15 @@ LEVEL = 'model_checking'
 
 
 WATCHDOG_S = 5
+REPLAY_WATCHDOG_S = 2     # a reported input is slow by a wide margin
 MAX_TIMEOUTS_PER_UNIT = 2
 
 
-class Timeout(Exception):
+class Timeout(BaseException):
     pass
 
 
-class UnitAborted(Exception):
+class UnitAborted(BaseException):
     pass
 
 
@@ -259,6 +260,24 @@ def scale_inputs(tier):
         if n <= 10000:
             out.append(('many-changes', H + b'#.change:\n#..file:\n'
                         b'#...meta: length=3\n{}\n' * n))
+    # near-miss tokens: a long run of valid characters with one invalid
+    # character at the end / start / middle (regular expressions with nested
+    # quantifiers backtrack exponentially on these)
+    for n in (5000, 200, 64, 40, 32, 28, 24, 16):     # clearest first
+        run = (b'a1B2c3D4' * (n // 8 + 1))[:n]
+        for bad in (b'+', b':', b'~', b'@', b'!', b'%', b'\xff', b' ', b'='):
+            for tok in (run + bad, bad + run, run[:n // 2] + bad +
+                        run[n // 2:]):
+                out.append(('near-miss-value', H + b'#.change: id=' + tok +
+                            b'\n'))
+                out.append(('near-miss-key', H + b'#.change: ' + tok +
+                            b'=v\n'))
+                out.append(('near-miss-second', H + b'#.change: a=b, id=' +
+                            tok + b', c=d\n'))
+        out.append(('near-miss-name', b'#' + b'd' * n + b': version=1.0\n'))
+        out.append(('near-miss-dots', b'#' + b'.' * n + b'meta: length=1\n'))
+        out.append(('near-miss-json', H + b'#.meta: length=%d\n' % (n + 10)
+                    + b'{"a": "' + b'\\' * n + b'"}\n'))
     for d in SCALE_DEPTHS:
         for o, c in ((b'[', b']'), (b'{"a":', b'}')):
             body = o * d + (b'1' if o != b'[' else b'') + c * d + b'\n'
@@ -332,8 +351,8 @@ def run_unit(unit, tier):
         try:
             viols, outcome = check_bytes(data)
         except Timeout:
-            viols, outcome = [('does-not-terminate', 'no result within %d s '
-                               'on input %s' % (WATCHDOG_S, _s(data)))], \
+            viols, outcome = [('does-not-terminate', 'no result within %d '
+                               's on input %s' % (WATCHDOG_S, _s(data)))], \
                 'timeout'
             timeouts[0] += 1
         finally:
@@ -452,12 +471,12 @@ def replay(payload):
     else:
         data = from_jsonable(payload['data'])
     signal.signal(signal.SIGALRM, _alarm)
-    signal.setitimer(signal.ITIMER_REAL, WATCHDOG_S)
+    signal.setitimer(signal.ITIMER_REAL, REPLAY_WATCHDOG_S)
     try:
         viols, outcome = check_bytes(data)
     except Timeout:
         viols = [('does-not-terminate', 'no result within %d s'
-                  % WATCHDOG_S)]
+                  % REPLAY_WATCHDOG_S)]
     finally:
         signal.setitimer(signal.ITIMER_REAL, 0)
     return [{'key': k, 'msg': m} for k, m in viols]
